@@ -36,7 +36,7 @@ def run(ctx):
     ctx.each(r08a, ctx, repo)
     ctx.each(r08b, ctx, repo, cg, E)
     ctx.each(r08c, ctx, repo, cg)
-    ctx.each(r08d, ctx, repo, cg)
+    ctx.each(r08d, ctx, repo, cg, E)
     ctx.each(r08e, ctx, repo)
 
 
@@ -170,7 +170,7 @@ def _set_typed(e, fi, depth=0):
     return False
 
 
-def r08d(ctx, repo, cg):
+def r08d(ctx, repo, cg, E=None):
     ctx.rule("R08d", "in functions reachable from run_model no `for` over a set appends to an ordered output or accumulates a number (only stores keyed by the loop variable itself are order-independent)")
     seen = cg.reachable([repo.func("model", "run_model")])
     n = 0
@@ -189,6 +189,11 @@ def r08d(ctx, repo, cg):
                     bad = s
                 elif isinstance(s, ast.Call) and isinstance(s.func, ast.Attribute) and s.func.attr in ("append", "extend", "insert"):
                     bad = enclosing_stmt(s)
+                elif isinstance(s, ast.Call) and E is not None and isinstance(getattr(s, "_parent", None), ast.Expr):
+                    # a call made for its effect: a repo callee that mutates its receiver / an argument builds something in iteration order
+                    for callee, kind in cg.resolve(fi, s):
+                        if kind in ("direct", "method") and any(E.mutates(callee, p_) for p_ in callee.params):
+                            bad = enclosing_stmt(s)
                 elif isinstance(s, ast.Assign):
                     for t in s.targets:
                         if isinstance(t, ast.Subscript):
